@@ -33,6 +33,10 @@ def run(ctx):
     tt = os.path.join(ctx.scratch, "tx-c12.ndjson")
     ctx.run_driver(["tx", "-count", 600 if thorough else 120, "-seed", ctx.seed + 5, "-out", tt])
     ctx.validate("", "Trace_TxPath", "Trace_TxPath.cfg", tt, label="messages on channel 0 and on logical channels, exact multiples of the packet body included", extra_env={"JUDGE": "C12"})
+    # isolation: the errors of another channel, more than its queue holds, are not handed to this channel
+    tl = os.path.join(ctx.scratch, "life-c12.ndjson")
+    ctx.run_driver(["life", "-out", tl, "-seed", ctx.seed, "-directed", "-floodonly"], race=False, timeout=600)
+    ctx.validate("", "Trace_Life", "Trace_Life.cfg", tl, shards=1, label="another channel's error queue overflows while this one receives and sends")
     ctx.assumptions += ["data-race freedom is observed under the race detector (a report is a violation with the report as replay file), not decided by the specification",
                         "channel ids are read through the guarded hook Channel.VerifChannelID",
                         "the peer acknowledges every channel setup and answers every client message on its channel"]
